@@ -42,8 +42,8 @@ impl<'x> Host for H<'x> {
     fn call_multi(&mut self, node: usize, _arg: u32) -> u32 {
         self.call(node)
     }
-    fn mk_call(&mut self, node: usize) -> (u32, Vec<()>) {
-        (self.call(node), vec![])
+    fn mk_call(&mut self, node: usize) -> (u32, Vec<()>, Vec<()>) {
+        (self.call(node), vec![], vec![])
     }
     fn new_ts(&mut self, _: u32, _: u32, _: u32) {}
     fn read_ts(&mut self, _: &(), _: usize) -> u32 {
